@@ -6,7 +6,8 @@ EXTENDS PbfPipeline, Json, IOUtils
 Lines == ndJsonDeserialize(IOEnv.REC)
 Norm(r) == [cfg |-> [blocks |-> [i \in 1 .. Len(r.cfg.blocks) |-> [k |-> r.cfg.blocks[i].k, n |-> r.cfg.blocks[i].n]],
                      endkind |-> r.cfg.endkind, hdr |-> r.cfg.hdr],
-            H |-> r.H, reads |-> r.reads, rem |-> r.rem, outcome |-> r.outcome]
+            H |-> r.H, reads |-> r.reads, rem |-> r.rem, outcome |-> r.outcome,
+            resume |-> (IF "resume" \in DOMAIN r THEN r.resume ELSE << >>)]
 \* forced replay of a Model behaviour: the real run must deliver what the Model delivered (a mismatch is a divergence
 \* of the Model from the code, reported as such; the verdict comes from RunOK alone)
 Agree(ln, r) == ln.case.kind = "forced" =>
